@@ -202,12 +202,12 @@ Proof.
   - (* FCStr *) rewrite (nulfree_no_nul _ Hw) in He. apply Ok_inj in He. subst b. cbn [lay_params lay_param]. rewrite (lay_cstr_enc _ Hw). now rewrite app_nil_r.
   - (* FU8 *) apply Ok_inj in He. subst b. cbn [lay_params lay_param]. now rewrite Hw.
   - (* FBool *) apply Ok_inj in He. subst b. unfold enc_bool. cbn [lay_params lay_param]. destruct b0; reflexivity.
-  - (* FEsm *) apply Ok_inj in He. subst b. cbn [lay_params lay_param]. rewrite <- (esm_to_byte_spec e Hw).
+  - (* FEsm *) change (esm_fits e) with (wf_esm e) in He; rewrite Hw in He. apply Ok_inj in He. subst b. cbn [lay_params lay_param]. rewrite <- (esm_to_byte_spec e Hw).
     assert (esm_to_byte e < 256) as Hb.
     { rewrite (esm_to_byte_spec e Hw). destruct e as [m t u0 r]. unfold wf_esm in Hw. cbn [e_mode e_type] in Hw.
       apply andb_true_iff in Hw. unfold spec_esm_byte, nb. cbn [e_mode e_type e_udhi e_reply]. destruct u0, r; lia. }
     destruct (N.ltb_spec (esm_to_byte e) 256); [reflexivity | lia].
-  - (* FRegDel *) apply Ok_inj in He. subst b. cbn [lay_params lay_param]. rewrite <- (regdel_to_byte_spec r Hw).
+  - (* FRegDel *) change (regdel_fits r) with (wf_regdel r) in He; rewrite Hw in He. apply Ok_inj in He. subst b. cbn [lay_params lay_param]. rewrite <- (regdel_to_byte_spec r Hw).
     assert (regdel_to_byte r < 256) as Hb.
     { rewrite (regdel_to_byte_spec r Hw). destruct r as [m s i v]. unfold wf_regdel in Hw. cbn [r_mc r_sme r_rsv] in Hw.
       apply andb_true_iff in Hw. destruct Hw as [Hw Hv]. apply andb_true_iff in Hw.
@@ -431,8 +431,8 @@ Definition pre_field (lay : layout) (udhi : bool) (k : fkind) (v : fval) : bool 
   | FCStr, VStr s => octetsb s
   | FU8, VU8 b => b <? 256
   | FBool, VBool _ => true
-  | FEsm, VEsm e => wf_esm e
-  | FRegDel, VRegDel r => wf_regdel r
+  | FEsm, VEsm e => true            (* ANY sub-field values: Marshal refuses the ones wider than their bit fields *)
+  | FRegDel, VRegDel r => true
   | FAddr, VAddr a => pre_addr a
   | FDests, VDests sme dl => forallb pre_addr sme && forallb octetsb dl
   | FUnsucc, VUnsucc l => forallb (fun e => pre_addr (fst e) && (snd e <? 4294967296)) l
@@ -470,6 +470,8 @@ Lemma pre_field_wf lay u k v b : pre_field lay u k v = true -> enc_field lay u k
 Proof.
   destruct k, v; cbn [pre_field enc_field wf_field]; try discriminate; intros Hp He; try exact Hp.
   - destruct (has_nul s) eqn:En; [discriminate|]. now apply octets_no_nul.
+  - change (wf_esm e) with (esm_fits e). destruct (esm_fits e); [reflexivity | discriminate].
+  - change (wf_regdel r) with (regdel_fits r). destruct (regdel_fits r); [reflexivity | discriminate].
   - destruct (has_nul (a_no a)) eqn:En; [discriminate|]. now apply pre_addr_wf.
   - apply andb_true_iff in Hp. destruct Hp as [Hs Hd]. unfold enc_dests in He.
     destruct (255 <? _); [discriminate|].
@@ -507,6 +509,13 @@ Proof.
   destruct (enc_fields lay u ks vs) as [b2| |] eqn:E2; cbn [obind] in He; try discriminate.
   cbn [wf_fields]. now rewrite (pre_field_wf lay u k v b1 Hv E1), (IH vs b2 Hvs E2).
 Qed.
+
+(* a flag sub-field wider than its bit field (esm_class mode > 3, type > 15; registered_delivery receipt / ack > 3,
+   reserved > 7) cannot be expressed: the field encoder reports an error, whatever the rest of the PDU is *)
+Lemma flag_width_refused lay u :
+  (forall e, esm_fits e = false -> enc_field lay u FEsm (VEsm e) = Err ESize) /\
+  (forall r, regdel_fits r = false -> enc_field lay u FRegDel (VRegDel r) = Err ESize).
+Proof. split; intros x H; cbn [enc_field]; rewrite H; reflexivity. Qed.
 
 (* C02, last sentence: whatever Marshal accepts it states faithfully *)
 Theorem marshal_ok_expressible lay h vs f :
@@ -599,12 +608,12 @@ Proof.
       apply Hfin. apply (Hcont seen u_dec Hctx Hseen). intros Hs. rewrite (Hnot Hs). reflexivity.
     + apply Ok_inj in E1. subst b1. unfold enc_bool. cbn [dec_field app dec_u8 obind norm_val]. rewrite nb_eqb1.
       apply Hfin. apply (Hcont seen u_dec Hctx Hseen). intros Hs. rewrite (Hnot Hs). reflexivity.
-    + apply Ok_inj in E1. subst b1. cbn [dec_field app dec_u8 obind norm_val]. rewrite (wf_esm_roundtrip e Hv).
+    + change (esm_fits e) with (wf_esm e) in E1; rewrite Hv in E1. apply Ok_inj in E1. subst b1. cbn [dec_field app dec_u8 obind norm_val]. rewrite (wf_esm_roundtrip e Hv).
       apply andb_true_iff in Hctx. destruct Hctx as [Hns Hctx]. apply negb_true_iff in Hns.
       pose proof (Hnot Hns) as Hu. rewrite udhi_of_cons in Hu.
       rewrite (esm_free_udhi lay u_enc ks vs (ctx_ok_seen_esm_free _ _ _ Hctx) Hvs), orb_false_r in Hu.
       apply Hfin. apply (Hcont true (e_udhi e) Hctx); [intros _; congruence | discriminate].
-    + apply Ok_inj in E1. subst b1. cbn [dec_field app dec_u8 obind norm_val]. rewrite (wf_regdel_roundtrip r Hv).
+    + change (regdel_fits r) with (wf_regdel r) in E1; rewrite Hv in E1. apply Ok_inj in E1. subst b1. cbn [dec_field app dec_u8 obind norm_val]. rewrite (wf_regdel_roundtrip r Hv).
       apply Hfin. apply (Hcont seen u_dec Hctx Hseen). intros Hs. rewrite (Hnot Hs). reflexivity.
     + rewrite (wf_addr_no_nul _ Hv) in E1. apply Ok_inj in E1. subst b1. cbn [dec_field]. rewrite (dec_addr_enc _ _ Hv). cbn [obind norm_val].
       apply Hfin. apply (Hcont seen u_dec Hctx Hseen). intros Hs. rewrite (Hnot Hs). reflexivity.
